@@ -271,6 +271,13 @@ Fixpoint replace_threads (s : lstore) (ids : list string) (succ : list bool) : l
               :: replace_threads s t (tl succ)
   end.
 
+(* first occurrences, in order (send.go: a target listed twice is served once) *)
+Fixpoint dedup_first (seen : list string) (l : list string) : list string :=
+  match l with
+  | [] => []
+  | x :: t => if mem_str x seen then dedup_first seen t else x :: dedup_first (x :: seen) t
+  end.
+
 (* goroutines the operation starts directly *)
 Definition op_main (s : lstore) (o : op) : list M :=
   match o with
@@ -301,7 +308,8 @@ Definition op_main (s : lstore) (o : op) : list M :=
                 (if succeeded then spawn_remap (w_node w) else ret true))]
       end
   | OReplace ids succeeded => replace_threads s ids succeeded
-  | OControl ids | OSend ids => map (fun id => with_workload_locked s [] false id (ret false)) ids
+  | OControl ids => map (fun id => with_workload_locked s [] false id (ret false)) ids
+  | OSend ids => map (fun id => with_workload_locked s [] false id (ret false)) (dedup_first [] ids)
   | ORawEngine id ign => [with_workload_locked s [] ign id (ret false)]
   | OSetNode name updated =>
       [with_node_pod_locked s name (if updated then spawn_remap name else ret true)]
